@@ -79,7 +79,7 @@ CLAIMS.update({
              "outside the theorem. " + NOTE, ref="6 C09"),
     "C10": dict(
         technique="Lean 4 theorems on the release gate and, by induction over the written forest, on the walker's accumulation of the full flag (C10_forest_full) + obstacle-injection runs under full=True/False",
-        text="C10_full_true, C10_full_false, C10_full_false_same_as_true and the pinned counterexample are proved/decided; C10_addNodeEdge_full states how the "
+        text="C10_full_true, C10_full_false, C10_full_false_same_as_true and the pinned counterexample are proved/decided; C10_react_full_never_recovers / C10_react_token_flag / C10_react_stall_not_full over the Model of all rounds of SMILESReaktor.react (tied by every round's side-chain table and the returned flag on the residues of every run): the flag is and'ed token by token, never recovers in a later round, a stalled round gives false. C10_addNodeEdge_full states how the "
              "walker accumulates the flag, C10_forest_full / C10_tree_full lift it to whole forests of any shape (full after numbering = full before, every residue realised, no '?' in a label) and the code's tree_full is compared with that conjunction per glycan. Random glycans with exactly one injected obstacle are converted under both settings and judged by the Spec.",
         note="An obstacle that makes Glycan() raise instead of returning '' (unknown sugar inside a glycan) is counted, not flagged: no molecule is released and convert returns ''. " + NOTE, ref="6 C10"),
     "C11": dict(
@@ -109,11 +109,11 @@ CLAIMS.update({
 CLAIMS.update({
     "C04": dict(
         technique="Lean 4 theorems (reactor token dispatch Model: C04_single_mod, C04_commute; proved-sound graft certificate for the placeholder substitution of every observed assemble_chains call: C04_certified_assemble; table theorems by kernel evaluation) + exhaustive single modifications against a hand-written Spec fragment table (RDKit molzip)",
-        text="C04_single_mod / C04_commute are proved over the Model of the first reactor round (token dispatch, extract_bridge, set_fg), which reproduces the code's side_chains on every observed call; the Model of assemble_chains' string half reproduces the stored residue SMILES text-identically and C04_certified_assemble proves that it denotes the placeholder molecule with every fragment grafted at its placeholder (every other atom and stereo mark unchanged). C04_fg_fragments_wellformed, C04_tables_consistent, C04_fragments_with_other_labels are decided by the kernel over the complete regenerated "
+        text="C04_single_mod / C04_commute are proved over the Model of the reactor (token dispatch for positioned and position-less tokens, extract_bridge, set_fg, all rounds), which reproduces the code's side_chains on every observed call; the Model of assemble_chains' string half reproduces the stored residue SMILES text-identically and C04_certified_assemble proves that it denotes the placeholder molecule with every fragment grafted at its placeholder (every other atom and stereo mark unchanged). C04_fg_fragments_wellformed, C04_tables_consistent, C04_fragments_with_other_labels are decided by the kernel over the complete regenerated "
              "tables. Thorough runs every library sugar x every free position x every functional-group token (54k conversions); for ~95 tokens the expected "
              "molecule is built from a hand-written fragment table that says what the token stands for and whether the O/N carries it or is replaced; "
              "for all tokens the sugar skeleton must stay a stereo-substructure; sets of 2-4 modifications are written in all orders.",
-        note="partial: which atom carries the placeholder (find_oxygen / carbon numbering: modelled in Mono/EnumC.lean and tied under C01, the RDKit edit itself not) and the second reactor round are judged by the sweep; deoxy chains ('H') and the uronic '(=O)O' chain are outside the graft certificate; two open known-finding families "
+        note="partial: which atom carries the placeholder (find_oxygen / carbon numbering: modelled in Mono/EnumC.lean and tied under C01, the RDKit edit itself not) is judged by the sweep; all rounds of react() are modelled (React.reactLoop) except parse_poly_carbon names; deoxy chains ('H') and the uronic '(=O)O' chain are outside the graft certificate; two open known-finding families "
              "(O replaced instead of carrying the group for 33 tokens; positional groups on amine positions). " + NOTE, ref="6 C04"),
     "C08": dict(
         technique="Lean 4 table theorems by kernel evaluation over the complete regenerated monosaccharide tables + exhaustive library sweep judged with RDKit",
